@@ -421,6 +421,8 @@ def resume_value_reaches_future(chk: Check, rule: str) -> None:
     for c in [w]:
         for f in c.methods.values():
             for s in writer_sites(chk.ctx, f, [LOC]):
+                if f.name == 'exit':
+                    continue   # releasing a step that is still blocked when the state is LEFT: the state is no longer current, what that step returns is discarded (C02 / C03 rule FUT-wait-release)
                 if s.op == 'set_result' and not any(s.call is m.call for m in mine):
                     chk.ob(rule, f, False, 'the waiting future is given a result outside resume(value): the continuation is woken with a value nobody passed to resume()',
                            node=s.call, kind='foreign-result')
